@@ -41,6 +41,82 @@ def _run(args):
     return L.run_history(hist, ENABLED, cfg)
 
 
+ADOPT_ALPHA = ("close", "open", "bet", "fill")
+
+
+def _adopt_one(seq):
+    """live adoption: bets of this framework's strategy that it does not know locally (placed by an earlier
+    instance) are reported by the order stream while the market is open / closed / re-opened: each is adopted
+    once, into the market the framework holds, and found by both lookups"""
+    import itertools as _it
+    from mc import livex
+    from flumine import BaseStrategy
+    from flumine.order.trade import Trade
+    from flumine.order.ordertype import LimitOrder
+
+    mid = "1.100000001"
+    w = livex.LiveWorld([], strategies=("alpha",))
+    w.start()
+    out = []
+    counts = {"clause:C15.a": 0, "clause:C15.c": 0, "adoption_states": 0, "adopted_while_closed": 0}
+    case = dict(adopt=list(seq))
+    try:
+        fw, ex = w.framework, w.exchange
+        st = list(fw.strategies)[0]
+        bets = []
+        closed = False
+        for ev in seq:
+            w.clock_ms += 1000
+            w.set_clock()
+            if ev in ("close", "open"):
+                w.books[mid] = w._make_book(mid, "CLOSED" if ev == "close" else "OPEN")
+                w.dispatch(w._book_event(mid))
+                closed = ev == "close"
+            elif ev == "bet":
+                tr = Trade(mid, 1, 0, st)
+                o = tr.create_order("BACK", LimitOrder(2.2 + 0.02 * len(bets), 2.0))
+                b = ex.new_bet(mid, o.create_place_instruction(), "verif")
+                bets.append((o.id, b))
+                ex.publish(mid, [b])
+                if closed:
+                    counts["adopted_while_closed"] += 1
+            elif ev == "fill":
+                if not bets:
+                    continue
+                ex.fill(bets[-1][1], 1.0)
+            while ex.snap_queue:
+                w.do(("D",))
+            counts["adoption_states"] += 1
+            counts["clause:C15.a"] += 1
+            counts["clause:C15.c"] += 1
+            m = fw.markets.markets.get(mid)
+            key_ = lambda pred: ("live", "adoption", pred, "closed" if closed else "open")
+            if m is None:
+                if bets:
+                    out.append(core.v("C15.a", key_("market-missing"), "after %s the market is not held by the framework" % list(seq), case))
+                continue
+            held = list(m.blotter)
+            if len(held) != len(bets):
+                out.append(core.v("C15.a", key_("count"), "after %s: %d order(s) in the market's blotter for %d bet(s) of the strategy at the exchange" % (list(seq), len(held), len(bets)), case))
+                break
+            for oid, b in bets:
+                x = fw.markets.get_order(mid, oid)
+                y = fw.markets.get_order_from_bet_id(mid, b.bet_id) if hasattr(fw.markets, "get_order_from_bet_id") else x
+                if x is None or str(x.bet_id) != b.bet_id or not any(x is h_ for h_ in held):
+                    out.append(core.v("C15.c", key_("lookup"), "after %s: bet %s is not found by its order id in the framework's market" % (list(seq), b.bet_id), case))
+                    break
+                if abs(x.size_matched - b.sm) > 1e-9:
+                    out.append(core.v("C15.a", key_("stale"), "after %s: adopted order of bet %s shows matched %s, exchange %s" % (list(seq), b.bet_id, x.size_matched, b.sm), case))
+                    break
+            if out:
+                break
+        if w.handler_exceptions:
+            out.append(core.v("C15.a", ("live", "adoption", "exception", "-"), w.handler_exceptions[0][-300:], case))
+    finally:
+        w.stop()
+    return dict(violations=out, counts=counts)
+
+
 def run(tier):
     rep = core.Report("C15", tier, "E1 simx")
     base = dict(n_strategies=2, n_clients=2, sels=SELS, max_live=3)
@@ -51,6 +127,16 @@ def run(tier):
     rep.need("replacement_orders_seen", "placed")
     rep.rule = "BFS with dedup + deviation-bounded histories; all blotter views compared with a shadow list of accepted orders after every update and at closure"
     rep.assumptions = ["bet-id view is required only for replacement/adopted orders, as the statement says", "live-mode adoption is covered by the E2 part"]
+    import itertools as _it
+
+    aj = [seq for n in range(1, 5 if tier != "thorough" else 6) for seq in _it.product(ADOPT_ALPHA, repeat=n) if "bet" in seq]
+    for r in core.pmap(_adopt_one, aj):
+        rep.add_violations(r["violations"])
+        rep.merge_counts(r["counts"])
+        rep.transitions += 1
+        rep.traces += 1
+    rep.states += len(aj)
+    rep.need("adopted_while_closed")
     livelife.explore_live(rep, ENABLED, tier)
     rep.engine = "E1 simx + E2 livex"
     return rep.finish()
@@ -58,6 +144,11 @@ def run(tier):
 
 def replay(rep):
     c = rep["case"]
+    if "adopt" in c:
+        r = _adopt_one(tuple(c["adopt"]))
+        for d in r["violations"]:
+            print(d["key"], d["detail"])
+        return 1 if r["violations"] else 0
     if "path" in c:
         return livelife.replay_live(c, ENABLED)
     r = L.run_history(c["history"], ENABLED, c.get("cfg"))
